@@ -38,7 +38,7 @@ fn n_batches(prop: &str, tier: Tier) -> u64 {
 // generators
 
 fn small_model(rng: &mut Rng) -> Model {
-    let (_, cfg, force) = crate::gen::grammar_for_case(rng, u64::MAX);
+    let (_, cfg, force) = crate::gen::small_grammar(rng);
     let mut m = model_from_cfg(&cfg, &force);
     assign_random_shapes(&mut m, rng, 0.6);
     m.start_pos = rng.below(m.nts.len() + 1);
@@ -204,6 +204,7 @@ pub fn model_grammar_hash(text: &str) -> Option<&str> {
 fn header_like_text(rng: &mut Rng) -> String {
     const FRAG: &[&str] = &[
         "//", "// @sha256 ", "//@sha256 ", "// @sha256", "// @sha256 // @sha256 ", " // @sha256 ", "abc", "0123abcdef", "\n", "\r\n", "\r", " ", "// x", "#![allow(dead_code)]", "/", "é", "\u{2028}", "// @sha256 deadbeef", "\t", "// @SHA256 ", "/// @sha256 ", "",
+        "// @sha256 abc  ", "// @sha256 abc\t", "// @sha2560", "//! x", "// @sha256 abc\r", "// @sha256  two", "//\t@sha256 x", "// @sha256 é", "\u{feff}// @sha256 x", "// @sha256", "//", "// ",
     ];
     let mut s = String::new();
     for _ in 0..rng.range(1, 10) {
@@ -220,6 +221,7 @@ fn header_like_text(rng: &mut Rng) -> String {
 
 const LAYOUT_SEPS: &[&str] = &[
     "", "", " ", "\n", "  ", "\t", "\r\n", "\u{a0}", "\u{2003}", "\u{2028}", "\u{85}", " // comment\n", "//\n", "// é 中 𝄞 #[ $ / struct \" \n", "\n\n\n", " //x\r\n", "\u{3000}",
+    "\u{b}", "\u{c}", "\u{1680}", "\u{2000}", "\u{200a}", "\u{2029}", "\u{202f}", "\u{205f}", "//c\n", "//\r\n", "// a // b\n",
 ];
 
 struct Relayout {
